@@ -1106,6 +1106,13 @@ void rfbNewFramebuffer(rfbScreenInfoPtr screen, char *framebuffer,
   if (memcmp(&screen->serverFormat, &old_format,
              sizeof(rfbPixelFormat)) != 0) {
     format_changed = TRUE;
+    /* a rich cursor the library derived from an X cursor is in the old pixel format */
+    if (screen->cursor && screen->cursor->source &&
+        screen->cursor->richSource && screen->cursor->cleanupRichSource) {
+      free(screen->cursor->richSource);
+      screen->cursor->richSource = NULL;
+      screen->cursor->cleanupRichSource = FALSE;
+    }
   }
 
   screen->frameBuffer = framebuffer;
